@@ -1,1 +1,763 @@
-/- C06 — property theorems (stub: not built yet). -/
+/-
+C06 — Quaver file and in-memory chart denote the same chart, both directions.
+Property theorems (helper lemmas: `Reamber/Lemmas/Qua.lean`).  Statements are about the executable model
+`Reamber/Model/Qua.lean`, which the correspondence check ties to reamber/quaver/* on every run, and are
+stated against `Reamber/Spec/Qua.lean` (`denote`, `quantize`, `closeChart`, `docAllowed`) — the same
+definitions the harness evaluates on the implementation's output.
+-/
+import Reamber.Lemmas.Qua
+import Reamber.Generated.QuaTables
+
+namespace Reamber.Qua
+
+open Spec
+
+/-! ## tie to the source -/
+
+def tyOfAnnot : String → Option Ty
+  | "str" => some .str
+  | "int" => some .int
+  | "bool" => some .bool
+  | "float" => some .num
+  | "List[str]" => some .list
+  | _ => none
+
+/-- Every constant / table the model and the specification depend on is the one the translator read from
+the source (`harness/translators/qua_tables.py`): metadata keys, attribute order and dataclass defaults,
+the keys `_read_metadata` and `_write_meta` use, the annotated type of every attribute, the `.get` defaults of
+`_read_bpms` / `_read_svs`, `Bpm.__init__`'s metronome default, the rename / fillna / astype tables and the lane
+shift of the four `from_yaml` / `to_yaml`, the order of the section pops. -/
+theorem consts_tie :
+    metaTable = Generated.Qua.metaTable ∧
+    Generated.Qua.metaReadKeys = Generated.Qua.metaWriteKeys ∧
+    Generated.Qua.metaWriteKeys.map Prod.fst = metaKeys ∧
+    Generated.Qua.tagsRead = (tagsKey, "", " ") ∧ Generated.Qua.tagsJoin = " " ∧
+    metaKeyTypes.map (fun kt => (kt.1, some kt.2)) =
+      Generated.Qua.metaAnnotations.map (fun ka => (ka.1, if ka.1 = tagsKey then some Ty.str else tyOfAnnot ka.2)) ∧
+    Generated.Qua.readBpmDefaults = [("StartTime", dfltStart), ("Bpm", dfltBpm)] ∧
+    Generated.Qua.readSvDefaults = [("StartTime", dfltStart), ("Multiplier", dfltMultiplier)] ∧
+    Generated.Qua.bpmMetronomeDefault = dfltMetronome ∧
+    Generated.Qua.hitRename = [("StartTime", "offset"), ("Lane", "column"), ("KeySounds", "keysounds")] ∧
+    Generated.Qua.holdRename =
+      [("StartTime", "offset"), ("Lane", "column"), ("KeySounds", "keysounds"), ("EndTime", "length")] ∧
+    Generated.Qua.hitFill = [("offset", fillOffset), ("column", fillColumn)] ∧
+    Generated.Qua.holdFill =
+      [("StartTime", fillOffset), ("offset", fillOffset), ("column", fillColumn), ("length", fillLength)] ∧
+    Generated.Qua.hitShift = [("column", "Sub", laneShift), ("column", "Add", laneShift)] ∧
+    Generated.Qua.holdShift = [("EndTime", "Sub", 0), ("column", "Sub", laneShift), ("column", "Add", laneShift)] ∧
+    Generated.Qua.hitAstype = [("offset", "int"), ("column", "int")] ∧
+    Generated.Qua.holdAstype = [("offset", "int"), ("column", "int"), ("EndTime", "int")] ∧
+    Generated.Qua.bpmAstype = [("offset", "int"), ("bpm", "float")] ∧
+    Generated.Qua.svAstype = [("offset", "int"), ("multiplier", "float")] ∧
+    Generated.Qua.hitToYaml = [("offset", "StartTime"), ("column", "Lane"), ("keysounds", "KeySounds")] ∧
+    Generated.Qua.holdToYaml = [("offset", "StartTime"), ("column", "Lane"), ("keysounds", "KeySounds")] ∧
+    Generated.Qua.bpmToYaml = [("offset", "StartTime"), ("bpm", "Bpm")] ∧
+    Generated.Qua.svToYaml = [("offset", "StartTime"), ("multiplier", "Multiplier")] ∧
+    Generated.Qua.bpmDrop = ["metronome"] ∧ Generated.Qua.holdDrop = ["length"] ∧
+    Generated.Qua.sectionPops = ["HitObjects", "TimingPoints", "SliderVelocities"] ∧
+    Generated.Qua.writeSections = ["TimingPoints", "SliderVelocities", "HitObjects"] := by
+  repeat' apply And.intro
+  all_goals decide +kernel
+
+/-! ## "times moved by less than 1 ms" -/
+
+theorem closeT_trunc (q : Rat) : closeT q (truncI q : Rat) = true := by
+  have h := truncI_close q
+  simp [closeT, h.1, h.2]
+
+theorem closeList_map {α} (f : α → α → Bool) (g : α → α) (h : ∀ a, f a (g a) = true) :
+    ∀ l : List α, closeList f l (l.map g) = true
+  | [] => rfl
+  | a :: t => by simp [closeList, h a, closeList_map f g h t]
+
+/-- **What a file can carry is within 1 ms of the chart**: every head, tail, tempo point and scroll velocity
+of `quantize c` lies less than 1 ms from its original; lanes, key sounds, tempi, multipliers are unchanged. -/
+theorem closeChart_quantize (c : Chart) : closeChart c (quantize c) = true := by
+  unfold closeChart quantize
+  simp only [Bool.and_eq_true]
+  refine ⟨⟨⟨closeList_map _ _ ?_ _, closeList_map _ _ ?_ _⟩, closeList_map _ _ ?_ _⟩, closeList_map _ _ ?_ _⟩
+  · intro h; simp [closeHit, qHit, closeT_trunc]
+  · intro h
+    simp only [closeHold, qHold, Bool.and_eq_true]
+    rw [add_sub_self]
+    simp [closeT_trunc]
+  · intro b; simp [closeBpm, qBpm, closeT_trunc]
+  · intro s; simp [closeSv, qSv, closeT_trunc]
+
+/-! ## write, then read -/
+
+theorem hasEnd_writeHit (h : Hit) : hasEnd (writeHit h) = false := by
+  simp [hasEnd, writeHit, Rec.get, List.lookup]
+
+theorem hasEnd_writeHold (h : Hold) : hasEnd (writeHold h) = true := by
+  simp [hasEnd, writeHold, Rec.get, List.lookup]
+
+theorem intOfRat_lane (c : Int) : intOfRat (((c + laneShift : Int) : Rat) - (laneShift : Rat)) = .ok c := by
+  have : ((c + laneShift : Int) : Rat) - (laneShift : Rat) = (c : Rat) := by push_cast; linarith
+  rw [this]
+  simp [intOfRat]
+
+theorem intOfRat_int (c : Int) : intOfRat (c : Rat) = .ok c := by simp [intOfRat]
+
+theorem ksCell_write (k : KsCell) (r : Rec) (a b : String × YV) :
+    ksCell (a :: b :: ("KeySounds", ksYV k) :: r) = .ok k ∨ a.1 = "KeySounds" ∨ b.1 = "KeySounds" := by
+  by_cases ha : a.1 = "KeySounds"
+  · exact Or.inr (Or.inl ha)
+  by_cases hb : b.1 = "KeySounds"
+  · exact Or.inr (Or.inr hb)
+  left
+  have ha' : ("KeySounds" == a.1) = false := by simpa using fun e => ha e.symm
+  have hb' : ("KeySounds" == b.1) = false := by simpa using fun e => hb e.symm
+  cases k <;> simp [ksCell, Rec.get, List.lookup, ha', hb', ksYV]
+
+theorem noteRowOf_writeHit (h : Hit) :
+    noteRowOf (writeHit h) = .ok (⟨some (truncI h.offset : Rat), none, some ((h.column + laneShift : Int) : Rat), h.keysounds⟩ : NoteRow) := by
+  have hk : ksCell (writeHit h) = .ok h.keysounds := by
+    rcases ksCell_write h.keysounds [] ("StartTime", .int (truncI h.offset)) ("Lane", .int (h.column + laneShift)) with e | e | e
+    · exact e
+    · simp at e
+    · simp at e
+  simp only [noteRowOf, hk]
+  simp [writeHit, numCell, Rec.get, List.lookup, numOf, bind, Except.bind, Except.map]
+
+theorem noteRowOf_writeHold (h : Hold) :
+    noteRowOf (writeHold h) = .ok (⟨some (truncI h.offset : Rat), some (truncI (h.offset + h.length) : Rat),
+      some ((h.column + laneShift : Int) : Rat), h.keysounds⟩ : NoteRow) := by
+  have hk : ksCell (writeHold h) = .ok h.keysounds := by
+    rcases ksCell_write h.keysounds [("EndTime", .int (truncI (h.offset + h.length)))]
+      ("StartTime", .int (truncI h.offset)) ("Lane", .int (h.column + laneShift)) with e | e | e
+    · exact e
+    · simp at e
+    · simp at e
+  simp only [noteRowOf, hk]
+  simp [writeHold, numCell, Rec.get, List.lookup, numOf, bind, Except.bind, Except.map]
+
+/-- the frame rows `pd.DataFrame(dicts)` builds from written records -/
+def rowH (h : Hit) : NoteRow := ⟨some (truncI h.offset : Rat), none, some ((h.column + laneShift : Int) : Rat), h.keysounds⟩
+def rowL (h : Hold) : NoteRow :=
+  ⟨some (truncI h.offset : Rat), some (truncI (h.offset + h.length) : Rat), some ((h.column + laneShift : Int) : Rat), h.keysounds⟩
+
+theorem hitsFromYaml_write (hs : List Hit) (hne : hs ≠ []) :
+    hitsFromYaml (hs.map writeHit) = .ok (hs.map qHit) := by
+  unfold hitsFromYaml
+  rw [mapE_map_ok noteRowOf writeHit rowH noteRowOf_writeHit hs]
+  simp only [bind, Except.bind]
+  have hall : (hs.map rowH).all (fun r => r.lane.isNone) = false := by
+    cases hs with
+    | nil => exact absurd rfl hne
+    | cons a t => simp [rowH]
+  rw [hall]
+  simp only [Bool.false_eq_true, if_false, List.map_map]
+  apply mapE_map_ok
+  intro h
+  simp [rowH, intOfRat_int, qHit, fillOffset]
+
+theorem holdsFromYaml_write (hs : List Hold) (hne : hs ≠ []) :
+    holdsFromYaml (hs.map writeHold) = .ok (hs.map qHold) := by
+  unfold holdsFromYaml
+  rw [mapE_map_ok noteRowOf writeHold rowL noteRowOf_writeHold hs]
+  simp only [bind, Except.bind, List.map_map]
+  have hall : (List.map ((fun r : NoteRow => { r with endT := nanSub r.endT r.start }) ∘
+      (fun r : NoteRow => { r with start := some (r.start.getD fillOffset) }) ∘ rowL) hs).all
+      (fun r => r.lane.isNone) = false := by
+    cases hs with
+    | nil => exact absurd rfl hne
+    | cons a t => simp [rowL]
+  rw [hall]
+  simp only [Bool.false_eq_true, if_false]
+  apply mapE_map_ok
+  intro h
+  simp [rowL, intOfRat_int, qHold, fillOffset, fillLength, nanSub]
+
+theorem filter_hits (hs : List Hit) (ls : List Hold) :
+    (hs.map writeHit ++ ls.map writeHold).filter (fun r => !hasEnd r) = hs.map writeHit := by
+  rw [List.filter_append]
+  have h1 : (hs.map writeHit).filter (fun r => !hasEnd r) = hs.map writeHit := by
+    apply List.filter_eq_self.mpr
+    intro r hr
+    obtain ⟨h, _, rfl⟩ := List.mem_map.mp hr
+    simp [hasEnd_writeHit]
+  have h2 : (ls.map writeHold).filter (fun r => !hasEnd r) = [] := by
+    apply List.filter_eq_nil_iff.mpr
+    intro r hr
+    obtain ⟨h, _, rfl⟩ := List.mem_map.mp hr
+    simp [hasEnd_writeHold]
+  rw [h1, h2, List.append_nil]
+
+theorem filter_holds (hs : List Hit) (ls : List Hold) :
+    (hs.map writeHit ++ ls.map writeHold).filter hasEnd = ls.map writeHold := by
+  rw [List.filter_append]
+  have h1 : (hs.map writeHit).filter hasEnd = [] := by
+    apply List.filter_eq_nil_iff.mpr
+    intro r hr
+    obtain ⟨h, _, rfl⟩ := List.mem_map.mp hr
+    simp [hasEnd_writeHit]
+  have h2 : (ls.map writeHold).filter hasEnd = ls.map writeHold := by
+    apply List.filter_eq_self.mpr
+    intro r hr
+    obtain ⟨h, _, rfl⟩ := List.mem_map.mp hr
+    simp [hasEnd_writeHold]
+  rw [h1, h2, List.nil_append]
+
+/-- hits only, holds only, no objects at all are the cases `hs = []` / `ls = []` of this statement -/
+theorem readNotes_write (hs : List Hit) (ls : List Hold) :
+    readNotes (hs.map writeHit ++ ls.map writeHold) = .ok (hs.map qHit, ls.map qHold) := by
+  unfold readNotes
+  simp only [filter_hits, filter_holds]
+  cases hs with
+  | nil =>
+    cases ls with
+    | nil => rfl
+    | cons a t =>
+      have e2 := holdsFromYaml_write (a :: t) (by simp)
+      simp only [List.map_cons] at e2
+      simp [e2, bind, Except.bind]
+  | cons b u =>
+    have e1 := hitsFromYaml_write (b :: u) (by simp)
+    simp only [List.map_cons] at e1
+    cases ls with
+    | nil => simp [e1, bind, Except.bind]
+    | cons a t =>
+      have e2 := holdsFromYaml_write (a :: t) (by simp)
+      simp only [List.map_cons] at e2
+      simp [e1, e2, bind, Except.bind]
+
+theorem readBpm_write (b : Bpm) : readBpm (writeBpm b) = .ok (qBpm b) := by
+  simp [readBpm, writeBpm, numCell, Rec.get, List.lookup, numOf, bind, Except.bind, Except.map, qBpm, dfltMetronome]
+
+theorem readSv_write (s : Sv) : readSv (writeSv s) = .ok (qSv s) := by
+  simp [readSv, writeSv, numCell, Rec.get, List.lookup, numOf, bind, Except.bind, Except.map, qSv]
+
+/-! metadata -/
+
+/-- `_write_meta` on one entry, as a function -/
+def wvP (kv : String × YV) : String × YV :=
+  if kv.1 = tagsKey then
+    match kv.2 with
+    | .strs l => (kv.1, .str (joinTags l))
+    | _ => kv
+  else kv
+
+theorem wvP_fst (kv : String × YV) : (wvP kv).1 = kv.1 := by
+  unfold wvP; split
+  · split <;> rfl
+  · rfl
+
+/-- the hypotheses on the metadata of a chart: its entries are the 21 attributes in order, and every tag can
+survive `" ".join` / `split(" ")` (non-empty, no space) -/
+def MetaOk (m : Rec) : Prop := metaKeysOk m = true ∧ tagsOk m = true
+
+theorem metaKeys_nodup : metaKeys.Nodup := by decide
+
+theorem tags_of_metaOk (m : Rec) (h : MetaOk m) (kv : String × YV) (hkv : kv ∈ m) (hk : kv.1 = tagsKey) :
+    ∃ l, kv.2 = .strs l ∧ l.all tagOk = true := by
+  obtain ⟨hkeys, htags⟩ := h
+  have hk' : m.map Prod.fst = metaKeys := by simpa [metaKeysOk] using hkeys
+  have hl : m.lookup tagsKey = some kv.2 := by
+    apply lookup_of_mem_nodup m tagsKey kv.2 (by rw [hk']; exact metaKeys_nodup)
+    rw [← hk]; exact hkv
+  unfold tagsOk Rec.get at htags
+  rw [hl] at htags
+  cases hv : kv.2 with
+  | strs l => exact ⟨l, rfl, by simpa [hv] using htags⟩
+  | _ => simp [hv] at htags
+
+theorem writeMeta_ok (m : Rec) (h : MetaOk m) : writeMeta m = .ok (m.map wvP) := by
+  unfold writeMeta
+  apply mapE_ok
+  intro kv hkv
+  unfold writeMetaVal wvP
+  by_cases hk : kv.1 = tagsKey
+  · obtain ⟨l, hl, _⟩ := tags_of_metaOk m h kv hkv hk
+    simp [hk, hl]
+  · simp [hk]
+
+theorem readMetaVal_written (m : Rec) (h : MetaOk m) (kv : String × YV) (hkv : kv ∈ m) (d : YV) :
+    readMetaVal (m.map wvP) kv.1 d = .ok kv.2 := by
+  have hk' : m.map Prod.fst = metaKeys := by simpa [metaKeysOk] using h.1
+  have hnd : ((m.map wvP).map Prod.fst).Nodup := by
+    rw [List.map_map]
+    have : (Prod.fst ∘ wvP) = (Prod.fst : String × YV → String) := by funext x; simp [wvP_fst]
+    rw [this, hk']; exact metaKeys_nodup
+  have hl : (m.map wvP).lookup kv.1 = some (wvP kv).2 := by
+    apply lookup_of_mem_nodup _ _ _ hnd
+    have : (kv.1, (wvP kv).2) = wvP kv := by rw [← wvP_fst kv]
+    rw [this]
+    exact List.mem_map.mpr ⟨kv, hkv, rfl⟩
+  unfold readMetaVal Rec.get
+  rw [hl]
+  by_cases hk : kv.1 = tagsKey
+  · obtain ⟨l, hl', hok⟩ := tags_of_metaOk m h kv hkv hk
+    simp [hk, wvP, hl', tagsOf_joinTags l hok]
+  · simp [hk, wvP]
+
+theorem mapE_table (G : String → YV → Except Err YV) :
+    ∀ (tbl s : Rec), tbl.map Prod.fst = s.map Prod.fst → (∀ kv ∈ s, ∀ d, G kv.1 d = .ok kv.2) →
+      mapE (fun kd => (G kd.1 kd.2).map (fun v => (kd.1, v))) tbl = .ok s
+  | [], [], _, _ => rfl
+  | [], _ :: _, h, _ => by simp at h
+  | _ :: _, [], h, _ => by simp at h
+  | (k, d) :: t, (k', v) :: s, h, hG => by
+    simp only [List.map_cons, List.cons.injEq] at h
+    obtain ⟨rfl, ht⟩ := h
+    have h1 := hG (k, v) (by simp) d
+    have h2 := mapE_table G t s ht (fun kv hkv d => hG kv (by simp [hkv]) d)
+    simp only [mapE, bind, Except.bind]
+    simp only at h1
+    rw [h1, h2]
+    rfl
+
+theorem readMeta_written (m : Rec) (h : MetaOk m) : readMeta (m.map wvP) = .ok m := by
+  unfold readMeta
+  apply mapE_table (fun k d => readMetaVal (m.map wvP) k d) metaTable m
+  · have hk' : m.map Prod.fst = metaKeys := by simpa [metaKeysOk] using h.1
+    rw [hk']; rfl
+  · intro kv hkv d
+    exact readMetaVal_written m h kv hkv d
+
+/-- **Read after write** (`qua_read_write`): for every chart whose rows have exactly the declared fields —
+any lanes, any (also NaN) key sounds, any rational times of either sign, hits only, holds only, empty
+sections — and whose metadata has the 21 attributes with tags that can survive a file, reading the written
+document yields exactly `quantize c`: the same objects, in the same order, times truncated to whole
+milliseconds (`closeChart_quantize`: each moved by less than 1 ms), tempo points with the default metronome. -/
+theorem qua_read_write (c : Chart) (hm : MetaOk c.info) : (write c >>= read) = .ok (quantize c) := by
+  unfold write
+  rw [writeMeta_ok c.info hm]
+  simp only [bind, Except.bind, read, sectionOf]
+  rw [readNotes_write]
+  simp only []
+  rw [mapE_map_ok readBpm writeBpm qBpm readBpm_write, mapE_map_ok readSv writeSv qSv readSv_write]
+  simp only []
+  rw [readMeta_written c.info hm]
+  rfl
+
+/-! ## only the keys and value types the format defines -/
+
+theorem recAllowed_writeHit (h : Hit) (hk : (h.keysounds != .nan) = true) : recAllowed hitObjectKeys (writeHit h) = true := by
+  cases hks : h.keysounds with
+  | nan => simp [hks] at hk
+  | list l => simp [writeHit, recAllowed, entryAllowed, hitObjectKeys, List.lookup, hasTy, ksYV, hks]
+
+theorem recAllowed_writeHold (h : Hold) (hk : (h.keysounds != .nan) = true) : recAllowed hitObjectKeys (writeHold h) = true := by
+  cases hks : h.keysounds with
+  | nan => simp [hks] at hk
+  | list l => simp [writeHold, recAllowed, entryAllowed, hitObjectKeys, List.lookup, hasTy, ksYV, hks]
+
+theorem recAllowed_writeBpm (b : Bpm) : recAllowed timingPointKeys (writeBpm b) = true := by
+  simp [writeBpm, recAllowed, entryAllowed, timingPointKeys, List.lookup, hasTy]
+
+theorem recAllowed_writeSv (s : Sv) : recAllowed sliderVelocityKeys (writeSv s) = true := by
+  simp [writeSv, recAllowed, entryAllowed, sliderVelocityKeys, List.lookup, hasTy]
+
+theorem entryAllowed_written (a b : String × YV) (ha : entryAllowed memKeyTypes a = true)
+    (hw : writeMetaVal a = .ok b) : entryAllowed metaKeyTypes b = true := by
+  unfold writeMetaVal at hw
+  by_cases hk : a.1 = tagsKey
+  · rw [if_pos hk] at hw
+    cases hv : a.2 with
+    | strs l =>
+      rw [hv] at hw
+      simp only [Except.ok.injEq] at hw
+      subst hw
+      rw [hk]
+      simp [entryAllowed, metaKeyTypes, List.lookup, hasTy, tagsKey]
+    | _ => rw [hv] at hw; simp at hw
+  · rw [if_neg hk] at hw
+    simp only [Except.ok.injEq] at hw
+    subst hw
+    unfold entryAllowed at ha ⊢
+    have := lookup_map_other Ty.list tagsKey metaKeyTypes a.1 hk
+    unfold memKeyTypes at ha
+    rw [this] at ha
+    exact ha
+
+/-- **Allowed keys and types** (`qua_write_keys`): the document written for a chart whose key-sound cells are
+lists (hypothesis forced by open finding D08: `converted_chart_counterexample`) and whose metadata attributes have
+their declared types (`string_isv_counterexample`: a string under `InitialScrollVelocity`, as the dataclass default was
+before the repair of D29, breaks it; `default_meta_typed`: default-constructed metadata satisfies it) uses only the keys the
+format defines, each with a value of the defined type — for every number of rows, lanes, times. -/
+theorem qua_write_keys (c : Chart) (d : Doc) (hk : ksLists c = true) (hm : metaTyped c.info = true)
+    (hw : write c = .ok d) : docAllowed d = true := by
+  unfold write at hw
+  cases hwm : writeMeta c.info with
+  | error e => rw [hwm] at hw; simp [bind, Except.bind] at hw
+  | ok m' =>
+    rw [hwm] at hw
+    simp only [bind, Except.bind, Except.ok.injEq] at hw
+    subst hw
+    have h1 : recAllowed metaKeyTypes m' = true :=
+      mapE_all writeMetaVal (entryAllowed memKeyTypes) (entryAllowed metaKeyTypes)
+        (fun a b ha hb => entryAllowed_written a b ha hb) c.info m' hwm hm
+    simp only [ksLists, Bool.and_eq_true, List.all_eq_true] at hk
+    simp only [docAllowed, secAllowed, Bool.and_eq_true, h1, true_and, List.all_append, List.all_map, List.all_eq_true]
+    refine ⟨⟨⟨fun h hh => ?_, fun h hh => ?_⟩, fun b _ => ?_⟩, fun s _ => ?_⟩
+    · exact recAllowed_writeHit h (hk.1 h hh)
+    · exact recAllowed_writeHold h (hk.2 h hh)
+    · exact recAllowed_writeBpm b
+    · exact recAllowed_writeSv s
+
+/-- D08 (open): a chart as it comes out of a converter (`cast` → `TimedList.empty`: key sounds NaN) is written
+with `KeySounds: .nan` — the hypothesis `ksLists` of `qua_write_keys` cannot be dropped. -/
+theorem converted_chart_counterexample :
+    ksLists ⟨metaTable, [⟨100, 1, .nan⟩], [], [], []⟩ = false ∧
+    (write ⟨metaTable, [⟨100, 1, .nan⟩], [], [], []⟩).toOption.map
+      (fun d => secAllowed hitObjectKeys d.hitObjects) = some false := by
+  decide +kernel
+
+/-- the metadata record `QuaMapMeta` had before the repair of D29 (`initial_scroll_velocity: float = ""`) -/
+def stringIsvMeta : Rec :=
+  metaTable.map (fun kv => if kv.1 = "InitialScrollVelocity" then (kv.1, YV.str "") else kv)
+
+/-- D29 (fixed): a metadata record with a *string* under `InitialScrollVelocity` is written with a string where the
+format defines a number — the hypothesis `metaTyped` of `qua_write_keys` cannot be dropped. (Hand-written record:
+this is what the dataclass default was before commit 0d2a2c1; the reverse patch brings it back.) -/
+theorem string_isv_counterexample :
+    metaTyped stringIsvMeta = false ∧
+    (write ⟨stringIsvMeta, [], [], [], []⟩).toOption.map docAllowed = some false := by
+  decide +kernel
+
+/-- since D29's repair the dataclass defaults (`metaTable`, tied to the source by `consts_tie`) have their
+declared types … -/
+theorem default_meta_typed : metaTyped metaTable = true ∧ MetaOk metaTable := by
+  refine ⟨by decide +kernel, by decide +kernel, by decide +kernel⟩
+
+/-- … so `qua_write_keys` holds for every chart with default-constructed metadata whose key sounds are lists. -/
+theorem qua_write_keys_default (hits : List Hit) (holds : List Hold) (bpms : List Bpm) (svs : List Sv) (d : Doc)
+    (hk : ksLists ⟨metaTable, hits, holds, bpms, svs⟩ = true)
+    (hw : write ⟨metaTable, hits, holds, bpms, svs⟩ = .ok d) : docAllowed d = true :=
+  qua_write_keys _ d hk default_meta_typed.1 hw
+
+/-! non-vacuity of `qua_read_write` / `qua_write_keys`: a chart with a hit, a hold, two tempo points, a scroll
+velocity, fractional and negative times, two tags -/
+
+def sampleMeta : Rec :=
+  metaTable.map (fun kv => if kv.1 = "InitialScrollVelocity" then (kv.1, YV.flt 1)
+    else if kv.1 = tagsKey then (kv.1, YV.strs ["a", "b:c"]) else kv)
+
+def sampleChart : Chart :=
+  ⟨sampleMeta, [⟨201 / 2, 2, .list []⟩, ⟨-1 / 2, 0, .list [⟨1, 50⟩]⟩], [⟨7 / 10, 1, 3 / 10, .list []⟩],
+   [⟨0, 120, 3⟩, ⟨10009 / 10, 100 / 3, 4⟩], [⟨11 / 2, 2⟩]⟩
+
+example : MetaOk sampleChart.info := by
+  constructor <;> decide +kernel
+
+example : ksLists sampleChart = true ∧ metaTyped sampleChart.info = true := by decide +kernel
+
+example : ((write sampleChart >>= read).toOption.map (fun c => (c.hits, c.holds, c.bpms))) =
+    some ([⟨100, 2, .list []⟩, ⟨0, 0, .list [⟨1, 50⟩]⟩], [⟨0, 1, 1, .list []⟩], [⟨0, 120, 4⟩, ⟨1000, 100 / 3, 4⟩]) := by
+  decide +kernel
+
+
+/-! ## reading = the declared chart, with the format's defaults -/
+
+theorem readBpm_eq (r : Rec) : readBpm r = denoteTp r := by
+  unfold readBpm denoteTp numCell
+  cases r.get "StartTime" with
+  | none => cases r.get "Bpm" with
+    | none => rfl
+    | some b => cases b <;> rfl
+  | some a => cases a <;> (cases r.get "Bpm" with
+    | none => rfl
+    | some b => cases b <;> rfl)
+
+theorem readSv_eq (r : Rec) : readSv r = denoteSv r := by
+  unfold readSv denoteSv numCell
+  cases r.get "StartTime" with
+  | none => cases r.get "Multiplier" with
+    | none => rfl
+    | some b => cases b <;> rfl
+  | some a => cases a <;> (cases r.get "Multiplier" with
+    | none => rfl
+    | some b => cases b <;> rfl)
+
+def cellP : Option YV → Option Rat
+  | some (.int i) => some (i : Rat)
+  | some (.flt q) => some q
+  | _ => none
+def laneI (r : Rec) : Int := match r.get "Lane" with | some (.int i) => i | _ => 0
+def ksP (r : Rec) : KsCell := match r.get "KeySounds" with | some (.ks l) => .list l | _ => .nan
+def startP (r : Rec) : Rat := (cellP (r.get "StartTime")).getD 0
+def rowP (r : Rec) : NoteRow := ⟨cellP (r.get "StartTime"), cellP (r.get "EndTime"), some (laneI r : Rat), ksP r⟩
+def hitP (r : Rec) : Hit := ⟨startP r, laneI r - 1, ksP r⟩
+def holdP (r : Rec) : Hold := ⟨startP r, laneI r - 1, (nanSub (cellP (r.get "EndTime")) (some (startP r))).getD 0, ksP r⟩
+def objP (r : Rec) : Obj := if hasEnd r then .hold (holdP r) else .hit (hitP r)
+
+theorem numCell_ok (r : Rec) (k : String) (h : numLike (r.get k) = true) : numCell r k = .ok (cellP (r.get k)) := by
+  unfold numCell
+  cases hv : r.get k with
+  | none => rfl
+  | some v => rw [hv] at h; cases v <;> first | rfl | simp [numLike] at h
+
+theorem objOk_parts (r : Rec) (h : objOk r = true) :
+    numLike (r.get "StartTime") = true ∧ numLike (r.get "EndTime") = true ∧
+    (∃ i, r.get "Lane" = some (.int i)) ∧ (∃ l, r.get "KeySounds" = some (.ks l)) := by
+  simp only [objOk, Bool.and_eq_true] at h
+  obtain ⟨⟨⟨h1, h2⟩, h3⟩, h4⟩ := h
+  refine ⟨h1, h2, ?_, ?_⟩
+  · cases hv : r.get "Lane" with
+    | none => simp [hv] at h3
+    | some v => cases v <;> simp_all
+  · cases hv : r.get "KeySounds" with
+    | none => simp [hv] at h4
+    | some v => cases v <;> simp_all
+
+theorem noteRowOf_ok (r : Rec) (h : objOk r = true) : noteRowOf r = .ok (rowP r) := by
+  obtain ⟨h1, h2, ⟨i, h3⟩, ⟨l, h4⟩⟩ := objOk_parts r h
+  have hl : numCell r "Lane" = .ok (some (i : Rat)) := by simp [numCell, h3, numOf, Except.map]
+  have hk : ksCell r = .ok (.list l) := by simp [ksCell, h4]
+  simp [noteRowOf, numCell_ok r _ h1, numCell_ok r _ h2, hl, hk, bind, Except.bind, rowP, laneI, ksP, h3, h4]
+
+theorem intOfRat_sub_one (i : Int) : intOfRat ((i : Rat) - 1) = .ok (i - 1) := by
+  have : ((i : Rat) - 1) = ((i - 1 : Int) : Rat) := by push_cast; rfl
+  rw [this]; exact intOfRat_int _
+
+theorem denoteObj_ok (r : Rec) (h : objOk r = true) : denoteObj r = .ok (objP r) := by
+  obtain ⟨h1, h2, ⟨i, h3⟩, ⟨l, h4⟩⟩ := objOk_parts r h
+  have hs : startOf r = .ok (startP r) := by
+    unfold startOf startP
+    cases hv : r.get "StartTime" with
+    | none => rfl
+    | some v => rw [hv] at h1; cases v <;> first | rfl | simp [numLike] at h1
+  have hl : laneOf r = .ok i := by simp [laneOf, h3, numOf, bind, Except.bind, intOfRat_int]
+  have hk : keySoundsOf r = .ok (.list l) := by simp [keySoundsOf, h4]
+  unfold denoteObj
+  simp only [hs, hl, hk, bind, Except.bind]
+  cases hv : r.get "EndTime" with
+  | none => simp [objP, hasEnd, hv, hitP, laneI, ksP, h3, h4]
+  | some v =>
+    rw [hv] at h2
+    cases v with
+    | int e => simp [objP, hasEnd, hv, holdP, laneI, ksP, h3, h4, numOf, cellP, nanSub]
+    | flt e => simp [objP, hasEnd, hv, holdP, laneI, ksP, h3, h4, numOf, cellP, nanSub]
+    | _ => simp [numLike] at h2
+
+theorem all_lane_false (rs : List Rec) (hne : rs ≠ []) (F : Rec → NoteRow) (hF : ∀ r, (F r).lane.isNone = false) :
+    (rs.map F).all (fun r => r.lane.isNone) = false := by
+  cases rs with
+  | nil => exact absurd rfl hne
+  | cons a t => simp [hF]
+
+theorem hitsFromYaml_ok (rs : List Rec) (hne : rs ≠ []) (h : ∀ r ∈ rs, objOk r = true) :
+    hitsFromYaml rs = .ok (rs.map hitP) := by
+  unfold hitsFromYaml
+  rw [mapE_ok noteRowOf rowP rs (fun r hr => noteRowOf_ok r (h r hr))]
+  simp only [bind, Except.bind, List.map_map]
+  rw [if_neg]
+  · apply mapE_map_ok
+    intro r
+    simp [rowP, hitP, startP, fillOffset, laneShift, intOfRat_sub_one]
+  · rw [all_lane_false rs hne _ (fun r => rfl)]; simp
+
+theorem holdsFromYaml_ok (rs : List Rec) (hne : rs ≠ []) (h : ∀ r ∈ rs, objOk r = true) :
+    holdsFromYaml rs = .ok (rs.map holdP) := by
+  unfold holdsFromYaml
+  rw [mapE_ok noteRowOf rowP rs (fun r hr => noteRowOf_ok r (h r hr))]
+  simp only [bind, Except.bind, List.map_map]
+  rw [if_neg]
+  · apply mapE_map_ok
+    intro r
+    simp [rowP, holdP, startP, fillOffset, fillLength, laneShift, intOfRat_sub_one]
+  · rw [all_lane_false rs hne _ (fun r => rfl)]; simp
+
+theorem objHits_map (ns : List Rec) : objHits (ns.map objP) = (ns.filter (fun r => !hasEnd r)).map hitP := by
+  induction ns with
+  | nil => rfl
+  | cons a t ih =>
+    by_cases ha : hasEnd a = true
+    · simp [objP, ha, objHits, ih]
+    · simp [objP, ha, objHits, ih]
+
+theorem objHolds_map (ns : List Rec) : objHolds (ns.map objP) = (ns.filter hasEnd).map holdP := by
+  induction ns with
+  | nil => rfl
+  | cons a t ih =>
+    by_cases ha : hasEnd a = true
+    · simp [objP, ha, objHolds, ih]
+    · simp [objP, ha, objHolds, ih]
+
+theorem readNotes_ok (ns : List Rec) (h : ∀ r ∈ ns, objOk r = true) :
+    readNotes ns = .ok (objHits (ns.map objP), objHolds (ns.map objP)) := by
+  unfold readNotes
+  rw [objHits_map, objHolds_map]
+  have h1 : ∀ r ∈ ns.filter (fun r => !hasEnd r), objOk r = true := fun r hr => h r (List.mem_filter.mp hr).1
+  have h2 : ∀ r ∈ ns.filter hasEnd, objOk r = true := fun r hr => h r (List.mem_filter.mp hr).1
+  cases e1 : ns.filter (fun r => !hasEnd r) with
+  | nil =>
+    cases e2 : ns.filter hasEnd with
+    | nil => rfl
+    | cons a t =>
+      have := holdsFromYaml_ok (a :: t) (by simp) (by rw [← e2]; exact h2)
+      simp [this, bind, Except.bind]
+  | cons b u =>
+    have hb := hitsFromYaml_ok (b :: u) (by simp) (by rw [← e1]; exact h1)
+    cases e2 : ns.filter hasEnd with
+    | nil => simp [hb, bind, Except.bind]
+    | cons a t =>
+      have := holdsFromYaml_ok (a :: t) (by simp) (by rw [← e2]; exact h2)
+      simp [hb, this, bind, Except.bind]
+
+/-- **Reading yields what the document declares** (`qua_read_defaults`): for every document whose hit objects
+have numeric times, an integer `Lane` and declared `KeySounds` — any lanes, omitted `StartTime`, omitted
+`Bpm` / `Multiplier` / tempo `StartTime`, empty sections, hits only, holds only, a missing section (both sides
+raise the `KeyError` class), any metadata — the reader's result is the by-the-book denotation: an object with an
+end time is a hold of duration `EndTime − StartTime`, omitted keys take the format's defaults.
+The conjunct "`KeySounds` declared" of `objOk` is forced by open finding D21
+(`omitted_keysounds_counterexample`); full statement: the same with `KeySounds` omitted read as `[]`. -/
+theorem qua_read_defaults (d : Doc) (h : objsDeclared d = true) : read d = denote d := by
+  unfold read denote
+  cases hho : d.hitObjects with
+  | none => rfl
+  | some ho =>
+    have hall : ∀ r ∈ ho, objOk r = true := by
+      simpa [objsDeclared, hho, List.all_eq_true] using h
+    simp only [sectionOf, bind, Except.bind]
+    rw [readNotes_ok ho hall, mapE_ok denoteObj objP ho (fun r hr => denoteObj_ok r (hall r hr))]
+    simp only []
+    have hb : readBpm = denoteTp := funext readBpm_eq
+    have hsv : readSv = denoteSv := funext readSv_eq
+    rw [hb, hsv]
+
+/-- D21 (open): a hit object that omits `KeySounds` is read with NaN key sounds, its denotation has `[]`. -/
+theorem omitted_keysounds_counterexample :
+    (read ⟨[], some [[("StartTime", .int 100), ("Lane", .int 2)]], some [], some []⟩).toOption.map (·.hits)
+      = some [⟨100, 1, .nan⟩] ∧
+    (denote ⟨[], some [[("StartTime", .int 100), ("Lane", .int 2)]], some [], some []⟩).toOption.map (·.hits)
+      = some [⟨100, 1, .list []⟩] := by
+  decide +kernel
+
+/-- D07 (fixed) stays fixed in the model: a hold that omits `StartTime` starts at 0 and keeps its length, also
+next to a hold that declares it. -/
+example : (read ⟨[], some [[("EndTime", .int 500), ("Lane", .int 3), ("KeySounds", .ks [])],
+                          [("StartTime", .int 10), ("EndTime", .int 300), ("Lane", .int 1), ("KeySounds", .ks [])]],
+                 some [[("Bpm", .flt (201 / 2))], []], some [[("StartTime", .int 5)]]⟩).toOption.map
+            (fun c => (c.holds, c.bpms, c.svs))
+    = some ([⟨0, 2, 500, .list []⟩, ⟨10, 0, 290, .list []⟩], [⟨0, 201 / 2, 4⟩, ⟨0, 120, 4⟩], [⟨5, 1⟩]) := by
+  decide +kernel
+
+example : objsDeclared ⟨[], some [[("EndTime", .int 500), ("Lane", .int 3), ("KeySounds", .ks [])]], some [], some []⟩ = true := by
+  decide +kernel
+
+
+/-! ## composites: the written document denotes the quantized chart; write after read -/
+
+theorem objOk_writeHit (h : Hit) (hk : (h.keysounds != .nan) = true) : objOk (writeHit h) = true := by
+  cases hks : h.keysounds with
+  | nan => simp [hks] at hk
+  | list l => simp [objOk, writeHit, Rec.get, List.lookup, numLike, ksYV, hks]
+
+theorem objOk_writeHold (h : Hold) (hk : (h.keysounds != .nan) = true) : objOk (writeHold h) = true := by
+  cases hks : h.keysounds with
+  | nan => simp [hks] at hk
+  | list l => simp [objOk, writeHold, Rec.get, List.lookup, numLike, ksYV, hks]
+
+/-- every object of a written document declares its times, lane and key sounds (when no key-sound cell is NaN) -/
+theorem objsDeclared_write (c : Chart) (d : Doc) (hk : ksLists c = true) (hw : write c = .ok d) :
+    objsDeclared d = true := by
+  unfold write at hw
+  cases hwm : writeMeta c.info with
+  | error e => rw [hwm] at hw; simp [bind, Except.bind] at hw
+  | ok m' =>
+    rw [hwm] at hw
+    simp only [bind, Except.bind, Except.ok.injEq] at hw
+    subst hw
+    simp only [ksLists, Bool.and_eq_true, List.all_eq_true] at hk
+    simp only [objsDeclared, Option.getD_some, List.all_append, List.all_map, Bool.and_eq_true, List.all_eq_true]
+    exact ⟨fun h hh => objOk_writeHit h (hk.1 h hh), fun h hh => objOk_writeHold h (hk.2 h hh)⟩
+
+/-- **The written document denotes the chart, times moved by less than 1 ms** (`qua_write_denotes`): for every
+chart with well-formed metadata and list-valued key sounds, the by-the-book denotation of the written document is
+exactly `quantize c` (and `closeChart c (quantize c)` by `closeChart_quantize`). -/
+theorem qua_write_denotes (c : Chart) (d : Doc) (hm : MetaOk c.info) (hk : ksLists c = true)
+    (hw : write c = .ok d) : denote d = .ok (quantize c) ∧ closeChart c (quantize c) = true := by
+  have h1 := qua_read_write c hm
+  rw [hw] at h1
+  simp only [bind, Except.bind] at h1
+  rw [← qua_read_defaults d (objsDeclared_write c d hk hw)]
+  exact ⟨h1, closeChart_quantize c⟩
+
+theorem mapE_mem {α β} (f : α → Except Err β) :
+    ∀ (l : List α) (l' : List β), mapE f l = .ok l' → ∀ b ∈ l', ∃ a ∈ l, f a = .ok b
+  | [], l', h, b, hb => by simp [mapE] at h; subst h; simp at hb
+  | a :: t, l', h, b, hb => by
+    simp only [mapE, bind, Except.bind] at h
+    cases hfa : f a with
+    | error e => rw [hfa] at h; simp at h
+    | ok x =>
+      rw [hfa] at h
+      cases hft : mapE f t with
+      | error e => rw [hft] at h; simp at h
+      | ok r =>
+        rw [hft] at h
+        simp at h
+        subst h
+        simp only [List.mem_cons] at hb
+        rcases hb with rfl | hb
+        · exact ⟨a, by simp, hfa⟩
+        · obtain ⟨a', ha', hfa'⟩ := mapE_mem f t r hft b hb
+          exact ⟨a', by simp [ha'], hfa'⟩
+
+theorem mapE_keys (G : String × YV → Except Err YV) :
+    ∀ (tbl m : Rec), mapE (fun kd => (G kd).map (fun v => (kd.1, v))) tbl = .ok m → m.map Prod.fst = tbl.map Prod.fst
+  | [], m, h => by simp [mapE] at h; subst h; rfl
+  | kd :: t, m, h => by
+    simp only [mapE, bind, Except.bind] at h
+    cases hft : mapE (fun kd => (G kd).map (fun v => (kd.1, v))) t with
+    | error e =>
+      rw [hft] at h
+      cases hg : G kd <;> simp [hg, Except.map] at h
+    | ok r =>
+      rw [hft] at h
+      cases hg : G kd with
+      | error e => simp [hg, Except.map] at h
+      | ok v =>
+        simp [hg, Except.map] at h
+        subst h
+        simp [mapE_keys G t r hft]
+
+/-- the metadata the reader produces is well formed: the 21 attributes in order, tags non-empty and space-free -/
+theorem readMeta_metaOk (d m : Rec) (h : readMeta d = .ok m) : MetaOk m := by
+  unfold readMeta at h
+  have hkeys : m.map Prod.fst = metaKeys := mapE_keys (fun kd => readMetaVal d kd.1 kd.2) metaTable m h
+  refine ⟨by simp [metaKeysOk, hkeys], ?_⟩
+  have hin : tagsKey ∈ m.map Prod.fst := by rw [hkeys]; decide
+  obtain ⟨kv, hkv, hk⟩ := List.mem_map.mp hin
+  obtain ⟨kd, _, hkd⟩ := mapE_mem _ metaTable m h kv hkv
+  have hl : m.lookup tagsKey = some kv.2 := by
+    apply lookup_of_mem_nodup m tagsKey kv.2 (by rw [hkeys]; exact metaKeys_nodup)
+    rw [← hk]; exact hkv
+  unfold tagsOk Rec.get
+  rw [hl]
+  cases hr : readMetaVal d kd.1 kd.2 with
+  | error e => rw [hr] at hkd; simp [Except.map] at hkd
+  | ok v =>
+    rw [hr] at hkd
+    simp only [Except.map, Except.ok.injEq] at hkd
+    have h1 : kd.1 = tagsKey := by rw [← hk, ← hkd]
+    have h2 : kv.2 = v := by rw [← hkd]
+    rw [h2]
+    unfold readMetaVal at hr
+    rw [if_pos h1] at hr
+    cases hg : d.get kd.1 with
+    | none => rw [hg] at hr; simp at hr; subst hr; exact tagsOf_ok ""
+    | some w =>
+      rw [hg] at hr
+      cases w with
+      | str s => simp at hr; subst hr; exact tagsOf_ok s
+      | _ => simp at hr
+
+theorem read_info (d : Doc) (c : Chart) (h : read d = .ok c) : readMeta d.info = .ok c.info := by
+  unfold read at h
+  simp only [bind, Except.bind] at h
+  repeat' split at h
+  all_goals first
+    | (simp only [Except.ok.injEq] at h; subst h; assumption)
+    | (exact absurd h (by simp))
+
+/-- **Write after read** (`qua_write_read`): whatever document the reader accepts, writing the chart it produced
+and reading again yields that chart quantized — no hypothesis on tags or metadata is needed, the reader's output
+always satisfies `MetaOk`. -/
+theorem qua_write_read (d : Doc) (c : Chart) (h : read d = .ok c) : (write c >>= read) = .ok (quantize c) :=
+  qua_read_write c (readMeta_metaOk d.info c.info (read_info d c h))
+
+
+end Reamber.Qua
